@@ -73,6 +73,18 @@ def holder_flow(rng):
 # referring to a finished flow / action that is read after the clean-up age; an activated flow restarted
 # after its old instance aged away.
 TEMPLATES = {
+    # a dict variable that got its value from another variable / came in as a flow parameter (an interpreter-held dict object
+    # in the live state, a plain dict after a restore); after the cut it is copied by name, one name is updated in place,
+    # the other one is reported
+    "dict-copied-by-name-after-cut": (
+        "flow main\n  activate varholder\n  $order = {\"n\": 1, \"items\": [\"a\"]}\n  $cart = $order\n  start keeper $cart\n  match A()\n"
+        "  $alias = $cart\n  ($cart.update({\"n\": 2}))\n  send Rep(w=\"main\", alias=$alias, cart=$cart, order=$order)\n  match A()\n"
+        "  send Rep2(e=$alias)\n  match Never()\n\n"
+        "flow keeper $basket\n  match B()\n  $mine = $basket\n  ($basket.update({\"k\": 9}))\n  send Rep(w=\"keeper\", mine=$mine, basket=$basket)\n  match B()\n"
+        "  start reporter $mine\n  match Never()\n\n"
+        "flow reporter $got\n  send Rep(w=\"reporter\", got=$got)\n  match Never()\n",
+        [["X", "A", "B", "A", "B"], ["B", "A", "X", "B", "A"], ["A", "A", "B", "B"]],
+    ),
     # flows called with the same parameter name and the same scalar value: their local contexts are equal, key for key, when the
     # state is saved; afterwards one of them reassigns its parameter and the others report theirs
     "equal-contexts": (
